@@ -303,7 +303,7 @@ func genDescOp(t *rapid.T, kind string) Op {
 
 func genOp(t *rapid.T, fam string) Op {
 	// weights lean to the setters the family supports, but every op may hit every family
-	kinds := []string{"annot", "annot", "config", "layers", "manifests", "subject", "orig"}
+	kinds := []string{"annot", "annot", "config", "layers", "manifests", "subject", "orig", "rebuild"}
 	switch fam {
 	case "oci-image", "docker2-image":
 		kinds = append(kinds, "config", "layers", "layers", "annot")
@@ -316,6 +316,11 @@ func genOp(t *rapid.T, fam string) Op {
 	}
 	kind := rapid.SampledFrom(kinds).Draw(t, "op_kind")
 	switch kind {
+	case "rebuild":
+		// the digest-algorithm change of the image mod code: a new manifest from the old one's
+		// descriptor (digest cleared, algorithm preferred) and struct / raw body
+		return Op{Kind: kind, Key: rapid.SampledFrom([]string{"sha256", "sha512", "sha512"}).Draw(t, "rb_algo"),
+			Base: rapid.SampledFrom([]string{"orig", "orig", "raw"}).Draw(t, "rb_from")}
 	case "annot":
 		op := Op{Kind: kind, Key: rapid.SampledFrom(annKeys).Draw(t, "a_key")}
 		if rapid.IntRange(0, 3).Draw(t, "a_del") != 0 {
@@ -358,7 +363,7 @@ func genB(t *rapid.T) CaseB {
 	c.Family = rapid.SampledFrom(families).Draw(t, "family")
 	c.Raw, c.Info = genBody(t, c.Family, false)
 	c.Build = rapid.SampledFrom([]string{"raw", "raw", "raw", "orig", "orig", "unset"}).Draw(t, "build")
-	c.Algo = rapid.SampledFrom([]string{"", "", "prefer512", "prefer512", "desc512", "ref512", "desc256"}).Draw(t, "algo")
+	c.Algo = rapid.SampledFrom([]string{"", "", "prefer512", "prefer512", "desc512", "ref512", "desc256", "prefer256"}).Draw(t, "algo")
 	c.HintMT = rapid.IntRange(0, 3).Draw(t, "hint_mt") != 0
 	n := rapid.IntRange(0, 8).Draw(t, "nops")
 	for i := 0; i < n; i++ {
@@ -398,6 +403,9 @@ func (c *CaseB) build(served, nm []byte) (manifest.Manifest, error, string) {
 		opts = append(opts, manifest.WithOrig(o))
 	}
 	switch c.Algo {
+	case "prefer256":
+		_ = desc.DigestAlgoPrefer(digest.SHA256)
+		useDesc = true
 	case "prefer512":
 		_ = desc.DigestAlgoPrefer(digest.SHA512)
 		useDesc = true
@@ -686,6 +694,43 @@ func checkB(c CaseB, ev *evid.Collector) []*evid.Violation {
 		}
 	}
 	for i, op := range c.Program {
+		if op.Kind == "rebuild" {
+			if !cur.IsSet {
+				ev.Class("b-op:rebuild:not-offered-or-skipped")
+				continue
+			}
+			desc := m.GetDescriptor()
+			desc.Digest = ""
+			desc.Data = nil
+			_ = desc.DigestAlgoPrefer(digest.Algorithm(op.Key))
+			var nm2 manifest.Manifest
+			var err error
+			if op.Base == "raw" {
+				nm2, err = manifest.New(manifest.WithDesc(desc), manifest.WithRaw(append([]byte{}, cur.Raw...)))
+			} else {
+				nm2, err = manifest.New(manifest.WithDesc(desc), manifest.WithOrig(m.GetOrig()))
+			}
+			tag := "rebuild-" + op.Base + ":" + tn
+			if err != nil || nm2 == nil {
+				vs = append(vs, evid.V("valid-manifest-rejected:"+tag, "step %d: re-creating the manifest from its own descriptor (digest cleared, %s preferred) and its %s failed: %v", i, op.Key, op.Base, err))
+				return vs
+			}
+			next := observe(nm2)
+			stepVs := equations(next, tag, false, ev)
+			if a1, ok := digestAlg(next.Digest); ok && a1 != op.Key {
+				stepVs = append(stepVs, evid.V("construction-ignores-preferred-algorithm:"+tag, "step %d: %s was preferred and no digest supplied, the re-created manifest reports %s", i, op.Key, next.Digest))
+			}
+			if op.Base == "raw" && string(next.Raw) != string(cur.Raw) {
+				stepVs = append(stepVs, evid.V("rawbody-not-the-served-bytes:"+tag, "step %d: re-created from RawBody() but RawBody() differs afterwards", i))
+			}
+			ev.Class("b-op:rebuild:" + op.Base + ":" + op.Key)
+			vs = append(vs, stepVs...)
+			if blocking(stepVs) {
+				return vs
+			}
+			m, cur = nm2, next
+			continue
+		}
 		called, err, argClass := exec(m, cur, op)
 		tag := op.Kind + ":" + tn
 		if !called {
